@@ -19,13 +19,13 @@ from symx import core, patch
 from symx.fs import SymFS
 
 
-def sym_ref(mesh, fields, layout, extra, level_prefix='Level_'):
+def sym_ref(mesh, fields, layout, extra, level_prefix='Level_', coord_sys=0):
     nd = mesh.ndims
     lo = [core.real('lo%d' % d) for d in range(nd)]
     dx0 = [core.real('dx%d' % d) for d in range(nd)]
     t = core.real('time')
     return Ref('p', nd, fields, mesh.ncell0, mesh.boxes, layout=layout, lo=lo, dx0=dx0, time=t, ref_line_extra=extra,
-               steps=[3 + l for l in range(len(mesh.boxes))], level_prefix=level_prefix)
+               steps=[3 + l for l in range(len(mesh.boxes))], level_prefix=level_prefix, coord_sys=coord_sys)
 
 
 def assume_geometry(ctx, ref):
@@ -142,7 +142,7 @@ def run_case(case):
     res = CaseResult()
     mods = common.mods()
     mesh = case['mesh']
-    ref = sym_ref(mesh, case['fields'], case['layout'], case.get('ref_extra', 0), case.get('level_prefix', 'Level_'))
+    ref = sym_ref(mesh, case['fields'], case['layout'], case.get('ref_extra', 0), case.get('level_prefix', 'Level_'), case.get('coord_sys', 0))
     PlotfileCooker = mods['amr_kitchen.plotfile_cooker'].PlotfileCooker
     viol = {}
     runs = []
@@ -263,6 +263,10 @@ def cases():
         for k in range(1 if tier == 'quick' else 3):
             out.append({'label': '%s/k%d' % (m.name, k), 'mesh': m, 'fields': fsets[(i + k + 4) % len(fsets)],
                         'layout': families.scatter_layouts(m, rnd, max_files=3), 'ref_extra': (i + k) % 3})
+    # non-Cartesian coordinate systems (the Header's coordinate line is 1 for r-z, 2 for spherical)
+    for i, m in enumerate([x for x in meshes if x.ndims == 2][:2] + [x for x in meshes if x.ndims == 3][:1]):
+        out.append({'label': '%s/coord-sys' % m.name, 'mesh': m, 'fields': fsets[(i + 1) % len(families.FIELD_SETS)], 'layout': families.scatter_layouts(m, rnd, max_files=2),
+                    'ref_extra': i % 2, 'coord_sys': [1, 2, 1][i]})
     # level directories under another name than Level_n (the Header says where each level lives)
     for i, m in enumerate(meshes[3:6] if tier == 'quick' else meshes):
         out.append({'label': '%s/lev-prefix' % m.name, 'mesh': m, 'fields': fsets[i % len(families.FIELD_SETS)], 'layout': families.scatter_layouts(m, rnd, max_files=2),
